@@ -169,9 +169,15 @@ def run(chk: common.Check) -> None:
         specs.append({'statement': src, 'mode': 'continuous', 'probe': True, 'timeout': 120, 'burst': b})
         specs.append({'statement': src, 'mode': 'interactive', 'policy': {'kind': 'all', 'command': 'continue'}, 'probe': True,
                       'timeout': 120, 'burst': b})
+    # the script has emitted its whole burst and returned; a slow plugin keeps most of it in the channel; then interrupt() — the
+    # process is not killed (the KeyboardInterrupt is handled in the child), so nothing may be lost
+    for b in ([1500] if chk.tier == 'quick' else [400, 1500, 4000]):
+        src = f'def burst(n):\n    print(*range(n), sep="\\n")\nburst({b})\nopen("@@MARKER@@", "w").close()\n'
+        specs.append({'statement': src, 'mode': 'continuous', 'probe': True, 'timeout': 45, 'burst': b, 'slow_plugin_s': 0.002,
+                      'signal': {'kind': 'interrupt', 'after_marker': True, 'delay': 0.3}})
     for r in common.real_runs(specs, jobs=6, hard_timeout=200):
         sp = r['spec']
-        chk.cov.case(('real', sp['burst'], sp['mode']))
+        chk.cov.case(('real', sp['burst'], sp['mode'], repr(sp.get('signal'))))
         chk.cov.count('kinds', 'real-child')
         rec = r['rec']
         if rec is None or not rec.get('finished'):
